@@ -11,41 +11,52 @@ open HierArc HierArc.Lens
 
 /-! ### A. the marginalised value is the log of the arithmetic mean of the likelihood -/
 
-theorem foldl_exp_sum (ls : List ℝ) (acc : ℝ) :
-    ls.foldl (fun acc l => if (true && decide ((0.0 : ℝ) < Trans.exp l)) = true then acc + Trans.exp l else acc) acc
-      = acc + (ls.map Real.exp).sum := by
+theorem foldl_exp_sum (ls : List ℝ) (mx acc : ℝ) :
+    ls.foldl (fun acc l => acc + Trans.exp (l - mx)) acc
+      = acc + (ls.map (fun l => Real.exp (l - mx))).sum := by
   induction ls generalizing acc with
   | nil => simp
   | cons l t ih =>
     simp only [List.foldl_cons, List.map_cons, List.sum_cons]
-    have : (0.0 : ℝ) < Trans.exp l := by rw [lit_zero]; exact Real.exp_pos l
-    simp only [this, decide_true, Bool.and_self, if_true]
     rw [ih]; simp only [Trans.exp]; ring
 
-/-- **log of the mean of L** (not the mean of log L): over ℝ every `exp l` is finite and positive, so
-    the N-draw branch returns `log((Σ exp lᵢ)/N)`. -/
-theorem marg_is_log_mean (ls : List ℝ) (hne : ls ≠ []) (n : ℝ) :
+theorem sum_exp_shift (ls : List ℝ) (mx : ℝ) :
+    (ls.map (fun l => Real.exp (l - mx))).sum = (ls.map Real.exp).sum * Real.exp (-mx) := by
+  induction ls with
+  | nil => simp
+  | cons l t ih =>
+    rw [List.map_cons, List.sum_cons, ih, List.map_cons, List.sum_cons, sub_eq_add_neg, Real.exp_add]
+    ring
+
+/-- **log of the mean of L** (not the mean of log L): over ℝ every log-likelihood is finite, and the
+    shifted sum `l_max + log(Σ exp(lᵢ − l_max)/N)` equals `log((Σ exp lᵢ)/N)` whatever the shift. -/
+theorem marg_is_log_mean (ls : List ℝ) (hne : ls ≠ []) (n : ℝ) (hn : 0 < n) :
     logMeanExp (fun _ => true) n ls = some (Real.log ((ls.map Real.exp).sum / n)) := by
   unfold logMeanExp
-  have hs := foldl_exp_sum ls 0.0
-  simp only at hs ⊢
-  rw [hs, lit_zero, zero_add]
-  have hpos : 0 < (ls.map Real.exp).sum := by
-    cases ls with
-    | nil => exact absurd rfl hne
-    | cons l t =>
+  simp only [List.filter_true]
+  cases ls with
+  | nil => exact absurd rfl hne
+  | cons l0 t =>
+    simp only
+    set mx := t.foldl (fun m l => if m < l then l else m) l0 with hmx
+    rw [foldl_exp_sum, lit_zero, zero_add, sum_exp_shift]
+    have hpos : 0 < ((l0 :: t).map Real.exp).sum := by
       simp only [List.map_cons, List.sum_cons]
       have : 0 ≤ (t.map Real.exp).sum :=
         List.sum_nonneg (by intro x hx; simp only [List.mem_map] at hx; obtain ⟨y, _, rfl⟩ := hx; exact (Real.exp_pos y).le)
-      linarith [Real.exp_pos l]
-  rw [if_neg (not_le.mpr hpos)]
-  rfl
+      linarith [Real.exp_pos l0]
+    congr 1
+    show mx + Real.log (((l0 :: t).map Real.exp).sum * Real.exp (-mx) / n) = _
+    have he : ((l0 :: t).map Real.exp).sum * Real.exp (-mx) / n
+        = (((l0 :: t).map Real.exp).sum / n) * Real.exp (-mx) := by ring
+    rw [he, Real.log_mul (div_pos hpos hn).ne' (Real.exp_pos _).ne', Real.log_exp]
+    ring
 
 /-- the mean of the likelihood is in general NOT the mean of the log-likelihood -/
 example : logMeanExp (fun _ => true) 2 [0, Real.log 3] = some (Real.log 2) ∧
     Real.log 2 ≠ (0 + Real.log 3) / 2 := by
   constructor
-  · rw [marg_is_log_mean _ (by simp)]
+  · rw [marg_is_log_mean _ (by simp) 2 (by norm_num)]
     simp [Real.exp_log]; norm_num
   · intro h
     have h4 : Real.log 4 = Real.log 3 := by
@@ -58,7 +69,7 @@ example : logMeanExp (fun _ => true) 2 [0, Real.log 3] = some (Real.log 2) ∧
 /-- **sharp value = limit of the marginalised value**: N identical draws give the single value back -/
 theorem marg_const (l : ℝ) (N : ℕ) (hN : 0 < N) :
     logMeanExp (fun _ => true) (N : ℝ) (List.replicate N l) = some l := by
-  rw [marg_is_log_mean _ (by cases N <;> simp_all)]
+  rw [marg_is_log_mean _ (by cases N <;> simp_all) _ (by exact_mod_cast hN)]
   simp only [List.map_replicate, List.sum_replicate, nsmul_eq_mul]
   have : (N : ℝ) ≠ 0 := by exact_mod_cast hN.ne'
   rw [mul_div_cancel_left₀ _ this, Real.log_exp]
